@@ -438,6 +438,12 @@ void vm_execute_id_dim_slice(vm * machine, bytecode * code)
                                                   code->id_dim_slice.index)]
                            .addr;
     mem_ptr slice = gc_get_vec_ref(machine->collector, slice_ref);
+    if (slice == nil_ptr)
+    {
+        machine->running = VM_EXCEPTION;
+        machine->exception = EXCEPT_NIL_POINTER;
+        return;
+    }
     mem_ptr range = gc_get_vec(machine->collector, slice, SLICE_RANGE_INDEX);
     int dim = code->id_dim_slice.dim_index;
 
